@@ -539,7 +539,7 @@ fn check_run(c: &Case, steps: &[Step], run: &Run) -> (Vec<Disc>, Info, BTreeSet<
             } else if l.key != r.key {
                 "keys-differ"
             } else if abs_diff(l.ts, r.ts) > c.w {
-                if abs_diff(l.ts, r.ts) == c.w + 1 {
+                if abs_diff(l.ts, r.ts) == c.w.saturating_add(1) {
                     "outside-window:distance-equals-window-plus-one"
                 } else {
                     "outside-window"
@@ -591,13 +591,13 @@ fn check_run(c: &Case, steps: &[Step], run: &Run) -> (Vec<Disc>, Info, BTreeSet<
                 }
             }
         }
-        let eligible = wm_between.iter().any(|w| *w - first_ts as i64 > c.w as i64);
+        let eligible = wm_between.iter().any(|w| (*w as i128) - (first_ts as i128) > c.w as i128);
         if eligible {
             info.excused_missing += 1;
             continue;
         }
         let cause = if !wm_between.is_empty() {
-            if wm_between.iter().any(|w| *w - first_ts as i64 == c.w as i64) {
+            if wm_between.iter().any(|w| (*w as i128) - (first_ts as i128) == c.w as i128) {
                 "lost-after-watermark-update:lag-equals-window".to_string()
             } else {
                 "lost-after-watermark-update:not-eligible-for-eviction".to_string()
@@ -952,7 +952,7 @@ fn explore_pair(base: &Case, rng: &mut Rng, st: &mut Stats, wm_variants: usize) 
         for v in 0..wm_variants {
             let plan = match v {
                 0 => WmPlan::Track(*rng.pick(&[0i64, 0, 1, 2])),
-                _ => WmPlan::Random(1 + rng.below(3), ts_hi + base.w as i64 + 2),
+                _ => WmPlan::Random(1 + rng.below(3), ts_hi + (base.w.min(50) as i64) + 2),
             };
             let steps = with_watermarks(base, m, plan, rng);
             check_case(&Case { steps, steps2: None, ..base.clone() }, st);
@@ -974,7 +974,8 @@ fn random_pair(rng: &mut Rng) -> Case {
     let left: Vec<Ev> = (0..nl).map(|_| ev(rng)).collect();
     let right: Vec<Ev> = (0..nr).map(|_| ev(rng)).collect();
     Case {
-        w: *rng.pick(&[0u64, 1, 2, 5]),
+        // (one pair in 30: an "unbounded" window, a duration at the top of the u64 / i64 second range)
+        w: if rng.chance(1, 30) { *rng.pick(&[u64::MAX, 1u64 << 63, i64::MAX as u64]) } else { *rng.pick(&[0u64, 1, 2, 5]) },
         cond: if rng.bool() { Cond::True } else { Cond::VLe },
         mode: match rng.below(8) {
             0 | 1 => Mode::Manager,
@@ -1015,7 +1016,7 @@ impl Check for C14 {
         "C14"
     }
     fn rule(&self) -> String {
-        "A 'pair' is (left sequence, right sequence, window w in whole seconds, join condition, driver = StreamJoinNode directly, through StreamJoinManager, or (1/8 of the random pairs) through a StreamJoinManager that also holds sibling joins sharing the left and/or right stream which are unregistered before or during the run, 5 such histories). For EVERY pair ALL merges of the two arrival orders are run (C(n+m,n), 70 for 4+4): once without watermark updates (emitted multiset must equal the reference join exactly; emitted sets are also compared directly between merges) and with watermark updates between arrivals (no duplicates, subset of the reference, a missing pair only if its first-arrived side was eligible for eviction at an update before the partner arrived). EXHAUSTIVE part: every pair of sequences of <=2+2 events over the stated small event domain x w in {0,1,2} x both conditions x all merges x {no watermark update; ONE update at every gap with every value 0..=ts_max+w+1}. RANDOM part: sequences of 0..=4 + 0..=4 events, 1..=3 keys, 1/6 of the events without key, in 1/5 of the pairs event ids are per-entity ids reused across timestamps, timestamps 0..=6 (or 0..=3), w in {0,1,2,5}, condition true or l.v<=r.v; watermark variants per merge: 'track' (after every arrival update_watermark(max ts seen - lag), lag in {0,1,2}) and 1..=3 random non-decreasing updates at random gaps. A pair is non-trivial when its reference join is non-empty AND (some same-key pair is excluded by window/condition OR some event has no key); distinct by (w, condition, both sequences).".into()
+        "A 'pair' is (left sequence, right sequence, window w in whole seconds, join condition, driver = StreamJoinNode directly, through StreamJoinManager, or (1/8 of the random pairs) through a StreamJoinManager that also holds sibling joins sharing the left and/or right stream which are unregistered before or during the run, 5 such histories). For EVERY pair ALL merges of the two arrival orders are run (C(n+m,n), 70 for 4+4): once without watermark updates (emitted multiset must equal the reference join exactly; emitted sets are also compared directly between merges) and with watermark updates between arrivals (no duplicates, subset of the reference, a missing pair only if its first-arrived side was eligible for eviction at an update before the partner arrived). EXHAUSTIVE part: every pair of sequences of <=2+2 events over the stated small event domain x w in {0,1,2} x both conditions x all merges x {no watermark update; ONE update at every gap with every value 0..=ts_max+w+1}. RANDOM part: sequences of 0..=4 + 0..=4 events, 1..=3 keys, 1/6 of the events without key, in 1/5 of the pairs event ids are per-entity ids reused across timestamps, timestamps 0..=6 (or 0..=3), w in {0,1,2,5} (one pair in 30: u64::MAX, 2^63 or i64::MAX seconds, an unbounded window), condition true or l.v<=r.v; watermark variants per merge: 'track' (after every arrival update_watermark(max ts seen - lag), lag in {0,1,2}) and 1..=3 random non-decreasing updates at random gaps. A pair is non-trivial when its reference join is non-empty AND (some same-key pair is excluded by window/condition OR some event has no key); distinct by (w, condition, both sequences).".into()
     }
     fn assumptions(&self) -> Vec<String> {
         vec![
